@@ -115,8 +115,9 @@ func (P *Program) genVC(fn *ssa.Function, opts genOpts) (vc *VC) {
 					ok = names[k]
 				}
 				if !ok {
-					vc.err = unsupported{fmt.Sprintf("stale contract: loop clause key %q binds to no loop of the current source", k)}
-					return vc
+					// the loop the clauses were written for is gone: its invariants are moot, the postconditions are
+					// still checked (they fail if the loop mattered)
+					vc.unsupp = append(vc.unsupp, fmt.Sprintf("loop clause key %q binds to no loop of the current source (clauses dropped)", k))
 				}
 			}
 		}
